@@ -102,6 +102,20 @@ pub struct SysJ {
     /// wrap = "orl": per actor, whether it ignores even message values
     #[serde(default)]
     pub ignore_even: Vec<bool>,
+    /// wrap = "orl": per actor, what it sends when it is handed message `on` (and does not ignore it)
+    #[serde(default)]
+    pub replies: Vec<Vec<ReplyJ>>,
+    /// order of the builder calls: 0 actors .. max_crashes; 1 max_crashes before the actors; 2 one actor, max_crashes, the
+    /// remaining actors
+    #[serde(default)]
+    pub builder_order: u8,
+}
+
+#[derive(Clone, Debug, Deserialize, Serialize)]
+pub struct ReplyJ {
+    pub on: u16,
+    pub dst: u64,
+    pub msg: u16,
 }
 
 #[derive(Clone, Debug, Deserialize, Serialize)]
@@ -145,29 +159,46 @@ impl MsgCodec for MsgWrapper<u16> {
     }
 }
 
-/// wrapped actor for the ordered-reliable-link checks: sends its script at start, records what it is handed
+/// wrapped actor for the ordered-reliable-link checks: sends its script at start, answers what it is handed according to
+/// `replies`, and records what it is handed and what it sent
 #[derive(Clone, Debug)]
 pub struct OrlScript {
     pub sends: Vec<(Id, u16)>,
     /// ignore (no state change, no output) messages with an even value
     pub ignore_even: bool,
+    /// (on, dst, msg): when handed `on`, send `msg` to `dst`
+    pub replies: Vec<(u16, Id, u16)>,
+}
+#[derive(Clone, Debug, Default, PartialEq, Eq, Hash)]
+pub struct OrlSt {
+    pub handed: Vec<(Id, u16)>,
+    pub sent: Vec<(Id, u16)>,
 }
 impl Actor for OrlScript {
     type Msg = u16;
-    type State = Vec<(Id, u16)>;
+    type State = OrlSt;
     type Timer = ();
     type Random = ();
     fn on_start(&self, _id: Id, o: &mut Out<Self>) -> Self::State {
+        let mut st = OrlSt::default();
         for (d, m) in &self.sends {
             o.send(*d, *m);
+            st.sent.push((*d, *m));
         }
-        Vec::new()
+        st
     }
-    fn on_msg(&self, _id: Id, state: &mut Cow<Self::State>, src: Id, msg: u16, _o: &mut Out<Self>) {
+    fn on_msg(&self, _id: Id, state: &mut Cow<Self::State>, src: Id, msg: u16, o: &mut Out<Self>) {
         if self.ignore_even && msg % 2 == 0 {
             return;
         }
-        state.to_mut().push((src, msg));
+        let st = state.to_mut();
+        st.handed.push((src, msg));
+        for (on, d, m) in &self.replies {
+            if *on == msg {
+                o.send(*d, *m);
+                st.sent.push((*d, *m));
+            }
+        }
     }
 }
 
@@ -369,11 +400,19 @@ where
         net_len: sys.boundary.net_len,
         hist_len: sys.boundary.hist_len,
     };
-    ActorModel::new(cfg, init_hist(&sys.history))
-        .actors(actors)
-        .init_network(make_network::<A::Msg>(sys))
+    let base = ActorModel::new(cfg, init_hist(&sys.history));
+    // the crash budget is the one given, whenever it is given
+    let base = match sys.builder_order {
+        1 => base.max_crashes(sys.max_crashes).actors(actors),
+        2 if !actors.is_empty() => {
+            let mut it = actors.into_iter();
+            let first = it.next().unwrap();
+            base.actor(first).max_crashes(sys.max_crashes).actors(it)
+        }
+        _ => base.actors(actors).max_crashes(sys.max_crashes),
+    };
+    base.init_network(make_network::<A::Msg>(sys))
         .lossy_network(if sys.lossy { LossyNetwork::Yes } else { LossyNetwork::No })
-        .max_crashes(sys.max_crashes)
         .record_msg_in(rec_in::<A::Msg>)
         .record_msg_out(rec_out::<A::Msg>)
         .within_boundary(|cfg, st| {
@@ -410,12 +449,22 @@ pub fn net_json<M: MsgCodec>(n: &Network<M>) -> Value {
             json!({"kind": "nondup", "set": [], "last": [], "bag": b, "flows": []})
         }
         Network::Ordered(m) => {
+            // (canonical: a flow without messages cannot influence anything and is not part of the abstract state; the
+            //  record carries their number separately, see empty_flows)
             let f: Vec<Value> = m
                 .iter()
+                .filter(|(_, q)| !q.is_empty())
                 .map(|((s, d), q)| json!({"src": usize::from(*s), "dst": usize::from(*d), "q": q.iter().map(|x| x.dec()).collect::<Vec<_>>()}))
                 .collect();
             json!({"kind": "ordered", "set": [], "last": [], "bag": [], "flows": f})
         }
+    }
+}
+
+pub fn empty_flows<M: MsgCodec>(n: &Network<M>) -> usize {
+    match n {
+        Network::Ordered(m) => m.values().filter(|q| q.is_empty()).count(),
+        _ => 0,
     }
 }
 
@@ -527,7 +576,8 @@ pub fn record_graph<A>(
             // still emit a record so that the judge sees the initial state
             let rec = json!({"sys": sysi, "init": true, "inb": false, "expanded": false, "state": pj, "edges": [],
                 "ignored": [], "next_steps_ok": true, "len": s.network.len(), "iter_all": [], "iter_deliv": [],
-                "stream": stream_of(&s), "iter_all_truncated": false, "has_rep": false, "rep_panicked": false, "rep": pj});
+                "stream": stream_of(&s), "iter_all_truncated": false, "has_rep": false, "rep_panicked": false, "rep": pj,
+                "empty_flows": empty_flows(&s.network)});
             serde_json::to_writer(&mut *out, &rec).unwrap();
             out.write_all(b"\n").unwrap();
         }
@@ -599,7 +649,8 @@ pub fn record_graph<A>(
         let rec = json!({"sys": sysi, "init": init_keys.contains(&key), "inb": true, "expanded": true, "state": pj,
             "edges": edges, "ignored": ignored, "next_steps_ok": next_steps_ok, "len": s.network.len(),
             "iter_all": iter_all, "iter_all_truncated": iter_all_truncated, "iter_deliv": iter_deliv,
-            "stream": stream_of(&s), "has_rep": has_rep, "rep_panicked": rep_panicked, "rep": rep_json});
+            "stream": stream_of(&s), "has_rep": has_rep, "rep_panicked": rep_panicked, "rep": rep_json,
+            "empty_flows": empty_flows(&s.network)});
         serde_json::to_writer(&mut *out, &rec).unwrap();
         out.write_all(b"\n").unwrap();
     }
@@ -722,19 +773,29 @@ pub fn record_system(sysi: usize, sys: &SysJ, out: &mut dyn Write, real_counts: 
                 .map(|(i, sc)| ActorWrapper::with_default_timeout(OrlScript {
                     sends: sc.iter().map(|e| (Id::from(e.dst as usize), e.msg)).collect(),
                     ignore_even: sys.ignore_even.get(i).cloned().unwrap_or(false),
+                    replies: sys.replies.get(i).map(|v| v.iter().map(|r| (r.on, Id::from(r.dst as usize), r.msg)).collect()).unwrap_or_default(),
                 }))
                 .collect();
             let m = configure(sys, actors);
-            let ps = |s: &StateWrapper<u16, Vec<(Id, u16)>>| {
+            let ps = |s: &StateWrapper<u16, OrlSt>| {
                 let (pending, last, handed, next) = s.verif_parts();
                 let mut p: Vec<(u64, usize, u16)> = pending.into_iter().map(|(q, d, m)| (q, usize::from(d), m)).collect();
                 p.sort();
                 let mut l: Vec<(usize, u64)> = last.into_iter().map(|(k, v)| (usize::from(k), v)).collect();
                 l.sort();
-                json!({"next": next,
+                // `next` is the Debug rendering of the per-destination sequencers, "{Id(1): 3, ..}": the integers pair up
+                let nums: Vec<u64> = next
+                    .split(|c: char| !c.is_ascii_digit())
+                    .filter(|t| !t.is_empty())
+                    .filter_map(|t| t.parse().ok())
+                    .collect();
+                let mut nx: Vec<(u64, u64)> = nums.chunks(2).filter(|c| c.len() == 2).map(|c| (c[0], c[1])).collect();
+                nx.sort();
+                json!({"next": next, "next_seq": nx.into_iter().map(|(d, n)| json!({"dst": d, "n": n})).collect::<Vec<_>>(),
                        "pending": p.into_iter().map(|(q, d, m)| json!({"seq": q, "dst": d, "m": m})).collect::<Vec<_>>(),
                        "last": l.into_iter().map(|(k, v)| json!({"src": k, "seq": v})).collect::<Vec<_>>(),
-                       "handed": handed.iter().map(|(sr, m)| json!({"src": usize::from(*sr), "m": m})).collect::<Vec<_>>()})
+                       "handed": handed.handed.iter().map(|(sr, m)| json!({"src": usize::from(*sr), "m": m})).collect::<Vec<_>>(),
+                       "sent": handed.sent.iter().map(|(d, m)| json!({"dst": usize::from(*d), "m": m})).collect::<Vec<_>>()})
             };
             record_graph(sysi, sys, &m, &ps, out, real_counts, None);
         }
